@@ -1,0 +1,532 @@
+//go:build verif
+
+package ir
+
+// Verification hooks for the shared-function hand-off of the builder
+// (memo tables in instantiate.go / methods.go, the task graph in task.go,
+// builder.iterate / buildFunction, Function.done, Package.build).
+//
+// With the "verif" build tag every hook call site
+//
+//	verifEvent(ev, b, fn) / verifTask(ev, x, y) / verifPkg(ev, b, p)
+//
+// (a) optionally yields or sleeps (seeded) and blocks on an installed gate
+// (only at points where no mutex of this package is held), and (b) appends
+// one NDJSON record to the file named by $VERIF_TRACE (or opened with
+// VerifOpen). Records are numbered by a sequence counter taken under the
+// tracer's own mutex; create/hit/addedge records are written while the
+// mutex of the memo table is still held, markdone before the channel is
+// closed, waitvisit after the receive from the channel returned and
+// waitreturn before the transitive flag is stored, so the order of the log
+// is consistent with the happens-before order of the real execution.
+//
+// The hooks only observe; they never change the state of the builder.
+
+import (
+	"bufio"
+	"encoding/json"
+	"fmt"
+	"go/ast"
+	"go/types"
+	"math/rand"
+	"os"
+	"runtime"
+	"sort"
+	"strconv"
+	"strings"
+	"sync"
+	"sync/atomic"
+	"time"
+
+	"golang.org/x/tools/go/types/typeutil"
+)
+
+// VerifRecord is one line of the event log.
+type VerifRecord struct {
+	Seq   int64  `json:"seq"`
+	Ev    string `json:"ev"`
+	B     int    `json:"b"`     // builder id (numbered by first appearance; 0 = none)
+	BL    string `json:"bl"`    // builder label: pkg:<path> | mv:<n> | ""
+	Fn    string `json:"fn"`    // function key (memo-table identity, see fnKey)
+	P     int    `json:"p"`     // id of the *Function pointer
+	K     string `json:"k"`     // inst | objm | wrap | pkg | ""
+	Sh    int    `json:"sh"`    // 1 iff fn.buildshared != nil
+	C     int    `json:"c"`     // builder that owns fn.buildshared (0 = none)
+	Y     int    `json:"y"`     // other builder (addedge target, waitvisit/waitskip node)
+	Edges []int  `json:"edges"` // task edges as builder ids (markdone, waitvisit)
+	NB    int    `json:"nb"`    // len(fn.Blocks) (fndone)
+	Body  int    `json:"body"`  // 1 iff fn must have a body once built (fndone)
+	Name  string `json:"name"`  // free text (reset marker)
+}
+
+// VerifPoint describes a gate point. The gate is called before the action
+// named by Ev, with no mutex of this package held by the caller, except for
+// points reached from within Program.MethodValue's critical section
+// (InMV reports that).
+type VerifPoint struct {
+	Ev   string
+	B    int
+	BL   string
+	Fn   string
+	K    string
+	Sh   int
+	Y    int
+	InMV bool
+}
+
+// VerifGate, if non-nil, is called at every gate point and may block.
+var VerifGate func(VerifPoint)
+
+type verifTracer struct {
+	mu       sync.Mutex
+	f        *os.File
+	w        *bufio.Writer
+	enc      *json.Encoder
+	seq      int64
+	nextB    int
+	nextMV   int
+	builders map[*builder]int
+	labels   map[int]string
+	tasks    map[*task]int
+	fns      map[*Function]int
+	building map[*Function]int
+	inMV     map[int]bool
+	typeIDs  typeutil.Map
+	objIDs   map[types.Object]int
+
+	ymu      sync.Mutex
+	rng      *rand.Rand
+	permille int
+	maxMicro int
+	creator  int // extra delay (µs) before building a shared function
+}
+
+var (
+	verifCur  atomic.Pointer[verifTracer]
+	verifOnce sync.Once
+)
+
+func newVerifTracer() *verifTracer {
+	t := &verifTracer{}
+	t.resetMaps()
+	return t
+}
+
+func (t *verifTracer) resetMaps() {
+	t.nextB = 0
+	t.nextMV = 0
+	t.builders = map[*builder]int{}
+	t.labels = map[int]string{}
+	t.tasks = map[*task]int{}
+	t.fns = map[*Function]int{}
+	t.building = map[*Function]int{}
+	t.inMV = map[int]bool{}
+	t.typeIDs = typeutil.Map{}
+	t.objIDs = map[types.Object]int{}
+}
+
+func verifT() *verifTracer {
+	if t := verifCur.Load(); t != nil {
+		return t
+	}
+	verifOnce.Do(func() {
+		if verifCur.Load() != nil {
+			return
+		}
+		path := os.Getenv("VERIF_TRACE")
+		seed := os.Getenv("VERIF_YIELD_SEED")
+		if path == "" && seed == "" {
+			return
+		}
+		t := newVerifTracer()
+		if path != "" {
+			if err := t.open(path); err != nil {
+				fmt.Fprintln(os.Stderr, "verif: cannot open trace:", err)
+				return
+			}
+		}
+		if seed != "" {
+			s, _ := strconv.ParseInt(seed, 10, 64)
+			pm, _ := strconv.Atoi(os.Getenv("VERIF_YIELD_PERMILLE"))
+			mx, _ := strconv.Atoi(os.Getenv("VERIF_YIELD_MAXMICROS"))
+			cr, _ := strconv.Atoi(os.Getenv("VERIF_YIELD_CREATOR"))
+			t.setYield(s, pm, mx, cr)
+		}
+		verifCur.Store(t)
+	})
+	return verifCur.Load()
+}
+
+func (t *verifTracer) open(path string) error {
+	f, err := os.Create(path)
+	if err != nil {
+		return err
+	}
+	t.f = f
+	t.w = bufio.NewWriterSize(f, 1<<16)
+	t.enc = json.NewEncoder(t.w)
+	return nil
+}
+
+func (t *verifTracer) setYield(seed int64, permille, maxMicros, creatorMicros int) {
+	t.ymu.Lock()
+	defer t.ymu.Unlock()
+	t.rng = rand.New(rand.NewSource(seed))
+	t.permille = permille
+	t.maxMicro = maxMicros
+	t.creator = creatorMicros
+}
+
+// VerifOpen starts tracing to path ("" = no log, hooks still gate/yield).
+func VerifOpen(path string) error {
+	t := newVerifTracer()
+	if path != "" {
+		if err := t.open(path); err != nil {
+			return err
+		}
+	}
+	verifCur.Store(t)
+	return nil
+}
+
+// VerifYield configures seeded yields at the gate points: with probability
+// permille/1000 a goroutine calls runtime.Gosched or sleeps up to maxMicros;
+// creatorMicros > 0 additionally delays (with probability 1/2) the building
+// of every shared function by up to that many microseconds.
+func VerifYield(seed int64, permille, maxMicros, creatorMicros int) {
+	if t := verifT(); t != nil {
+		t.setYield(seed, permille, maxMicros, creatorMicros)
+	} else {
+		VerifOpen("")
+		verifCur.Load().setYield(seed, permille, maxMicros, creatorMicros)
+	}
+}
+
+// VerifReset writes a "reset" record (a new, independent program follows)
+// and restarts the numbering of builders and functions. It must not be
+// called while a build is in progress.
+func VerifReset(name string) {
+	t := verifCur.Load()
+	if t == nil {
+		return
+	}
+	t.mu.Lock()
+	defer t.mu.Unlock()
+	t.write(VerifRecord{Ev: "reset", Name: name})
+	t.resetMaps()
+	if t.w != nil {
+		t.w.Flush()
+	}
+}
+
+// VerifClose flushes and closes the log and stops tracing.
+func VerifClose() {
+	t := verifCur.Load()
+	if t == nil {
+		return
+	}
+	t.mu.Lock()
+	defer t.mu.Unlock()
+	if t.w != nil {
+		t.w.Flush()
+		t.f.Close()
+		t.w, t.f, t.enc = nil, nil, nil
+	}
+	verifCur.Store(nil)
+}
+
+// VerifBuilt reports whether fn is marked as built (fn.build == nil).
+// It is racy by design: a caller that may legitimately rely on fn being
+// built (Build has returned) reads it without synchronisation, so that the
+// race detector sees a premature return.
+func VerifBuilt(fn *Function) bool { return fn.build == nil }
+
+// VerifShared reports whether fn is a shared (memoised, on-demand) function.
+func VerifShared(fn *Function) bool { return fn.buildshared != nil }
+
+// VerifKey returns the memo-table identity used in the log for fn.
+func VerifKey(fn *Function) string {
+	t := verifCur.Load()
+	if t == nil {
+		return fn.String()
+	}
+	t.mu.Lock()
+	defer t.mu.Unlock()
+	_, k := t.fnKey(fn)
+	return k
+}
+
+func (t *verifTracer) write(r VerifRecord) {
+	if t.enc == nil {
+		return
+	}
+	t.seq++
+	r.Seq = t.seq
+	if r.Edges == nil {
+		r.Edges = []int{}
+	}
+	t.enc.Encode(&r)
+}
+
+func (t *verifTracer) bid(b *builder) int {
+	if b == nil {
+		return 0
+	}
+	id, ok := t.builders[b]
+	if !ok {
+		t.nextB++
+		id = t.nextB
+		t.builders[b] = id
+	}
+	if b.buildshared != nil {
+		t.tasks[b.buildshared] = id
+	}
+	return id
+}
+
+func (t *verifTracer) typeID(T types.Type) int {
+	if v := t.typeIDs.At(T); v != nil {
+		return v.(int)
+	}
+	id := t.typeIDs.Len() + 1
+	t.typeIDs.Set(T, id)
+	return id
+}
+
+func (t *verifTracer) objID(o types.Object) int {
+	id, ok := t.objIDs[o]
+	if !ok {
+		id = len(t.objIDs) + 1
+		t.objIDs[o] = id
+	}
+	return id
+}
+
+// fnKey returns the kind of fn and the identity under which the memo table
+// that owns fn stores it: (origin, canonical type arguments) for generic
+// instances, the types.Func for on-demand methods, (receiver type, method
+// id) for method-set wrappers. Types are identified up to types.Identical,
+// not by their spelling.
+func (t *verifTracer) fnKey(fn *Function) (kind, key string) {
+	switch {
+	case fn.buildshared == nil:
+		return "pkg", fn.String()
+	case fn.topLevelOrigin != nil:
+		var sb strings.Builder
+		o := fn.topLevelOrigin
+		fmt.Fprintf(&sb, "inst:%s#%d[", o.String(), t.fnID(o))
+		for i, T := range fn.TypeArgs() {
+			if i > 0 {
+				sb.WriteByte(',')
+			}
+			fmt.Fprintf(&sb, "%s#%d", types.TypeString(T, nil), t.typeID(T))
+		}
+		sb.WriteByte(']')
+		return "inst", sb.String()
+	case fn.method != nil:
+		return "wrap", fmt.Sprintf("wrap:(%s#%d).%s", types.TypeString(fn.method.recv, nil), t.typeID(fn.method.recv), fn.object.Id())
+	case fn.object != nil:
+		return "objm", fmt.Sprintf("objm:%s#%d", fn.object.FullName(), t.objID(fn.object))
+	}
+	return "other", fn.String()
+}
+
+func (t *verifTracer) fnID(fn *Function) int {
+	id, ok := t.fns[fn]
+	if !ok {
+		id = len(t.fns) + 1
+		t.fns[fn] = id
+	}
+	return id
+}
+
+func verifHasBody(fn *Function) bool {
+	switch s := fn.syntax.(type) {
+	case *ast.FuncDecl:
+		return s.Body != nil
+	case *ast.FuncLit:
+		return true
+	}
+	if fn.method != nil {
+		return true // wrapper or thunk
+	}
+	return strings.HasPrefix(fn.Synthetic, "bound method wrapper") ||
+		strings.HasPrefix(fn.Synthetic, "instantiation wrapper")
+}
+
+func (t *verifTracer) edgeIDs(x *task) []int {
+	ids := make([]int, 0, len(x.edges))
+	for y := range x.edges {
+		ids = append(ids, t.tasks[y])
+	}
+	sort.Ints(ids)
+	return ids
+}
+
+// kinds of hook points
+const (
+	verifLog  = 1 // write a record
+	verifStop = 2 // yield / gate before the action (no mutex held)
+)
+
+func verifKind(ev string) int {
+	switch ev {
+	case "ref?", "done?", "waitvisit?":
+		return verifStop
+	case "buildfn", "markdone", "waitreturn", "pkgbuild_begin", "mv_begin":
+		return verifStop | verifLog
+	}
+	return verifLog
+}
+
+func (t *verifTracer) stop(pt VerifPoint) {
+	if t.rng != nil {
+		t.ymu.Lock()
+		r := t.rng.Intn(1000)
+		d := 0
+		if r < t.permille && t.maxMicro > 0 {
+			d = t.rng.Intn(t.maxMicro + 1)
+		}
+		if pt.Ev == "buildfn" && pt.Sh == 1 && t.creator > 0 && t.rng.Intn(2) == 0 {
+			d += t.rng.Intn(t.creator + 1)
+		}
+		t.ymu.Unlock()
+		if r < t.permille {
+			if d > 0 && r%2 == 0 {
+				time.Sleep(time.Duration(d) * time.Microsecond)
+			} else {
+				runtime.Gosched()
+			}
+		} else if d > 0 {
+			time.Sleep(time.Duration(d) * time.Microsecond)
+		}
+	}
+	if g := VerifGate; g != nil {
+		g(pt)
+	}
+}
+
+func (t *verifTracer) point(r *VerifRecord) VerifPoint {
+	return VerifPoint{Ev: r.Ev, B: r.B, BL: r.BL, Fn: r.Fn, K: r.K, Sh: r.Sh, Y: r.Y, InMV: t.inMV[r.B]}
+}
+
+func verifEvent(ev string, b *builder, fn *Function) {
+	t := verifT()
+	if t == nil {
+		return
+	}
+	kind := verifKind(ev)
+	t.mu.Lock()
+	r := VerifRecord{Ev: ev, B: t.bid(b)}
+	if ev == "mv_begin" {
+		t.nextMV++
+		t.labels[r.B] = "mv:" + strconv.Itoa(t.nextMV)
+	}
+	if fn != nil {
+		r.K, r.Fn = t.fnKey(fn)
+		r.P = t.fnID(fn)
+		if fn.buildshared != nil {
+			r.Sh = 1
+			r.C = t.tasks[fn.buildshared]
+		}
+		switch ev {
+		case "create":
+			r.C = r.B
+		case "buildfn":
+			t.building[fn] = r.B
+		case "done?":
+			r.B = t.building[fn]
+		case "fndone":
+			r.B = t.building[fn]
+			delete(t.building, fn)
+			r.NB = len(fn.Blocks)
+			if verifHasBody(fn) {
+				r.Body = 1
+			}
+		}
+	}
+	r.BL = t.labels[r.B]
+	switch ev {
+	case "mv_lock":
+		t.inMV[r.B] = true
+	case "mv_unlock":
+		delete(t.inMV, r.B)
+	}
+	pt := t.point(&r)
+	if kind&verifStop == 0 {
+		t.write(r)
+		if ev == "mv_end" {
+			delete(t.builders, b)
+		}
+		t.mu.Unlock()
+		return
+	}
+	t.mu.Unlock()
+	t.stop(pt)
+	if kind&verifLog != 0 {
+		t.mu.Lock()
+		t.write(r)
+		t.mu.Unlock()
+	}
+}
+
+func verifTask(ev string, x, y *task) {
+	t := verifT()
+	if t == nil {
+		return
+	}
+	kind := verifKind(ev)
+	t.mu.Lock()
+	r := VerifRecord{Ev: ev, B: t.tasks[x], Y: t.tasks[y]}
+	r.BL = t.labels[r.B]
+	switch ev {
+	case "markdone":
+		r.Edges = t.edgeIDs(x)
+	case "waitvisit":
+		r.Edges = t.edgeIDs(y)
+	}
+	pt := t.point(&r)
+	if kind&verifStop == 0 {
+		t.write(r)
+		t.mu.Unlock()
+		return
+	}
+	t.mu.Unlock()
+	t.stop(pt)
+	if kind&verifLog != 0 {
+		t.mu.Lock()
+		t.write(r)
+		t.mu.Unlock()
+	}
+}
+
+func verifPkg(ev string, b *builder, p *Package) {
+	t := verifT()
+	if t == nil {
+		return
+	}
+	kind := verifKind(ev)
+	t.mu.Lock()
+	r := VerifRecord{Ev: ev, B: t.bid(b)}
+	if ev == "pkgbuild_begin" {
+		t.labels[r.B] = "pkg:" + p.Pkg.Path()
+	}
+	r.BL = t.labels[r.B]
+	r.Name = p.Pkg.Path()
+	pt := t.point(&r)
+	if kind&verifStop == 0 {
+		t.write(r)
+		if ev == "pkgbuild_end" {
+			delete(t.builders, b)
+		}
+		t.mu.Unlock()
+		return
+	}
+	t.mu.Unlock()
+	t.stop(pt)
+	if kind&verifLog != 0 {
+		t.mu.Lock()
+		t.write(r)
+		t.mu.Unlock()
+	}
+}
